@@ -397,3 +397,9 @@ func init() {
 	registry["C01"].Meta.Rules["C01.13"] = txt + " (shared with C05.13)"
 	registry["C01"].Rules = append(registry["C01"].Rules, func(c *Ctx, r *Result) { c05rowPlacement(c, r, "C01.13") })
 }
+
+func init() {
+	txt := registry["C05"].Meta.Rules["C05.11"]
+	registry["C08"].Meta.Rules["C08.12"] = txt + "; a signed operand is also proven non-negative (an 8-byte LZF match sent to the long form has its length byte computed as byte(8-9) = 255) (shared with C05.11)"
+	registry["C08"].Rules = append(registry["C08"].Rules, func(c *Ctx, r *Result) { narrowingRule(c, r, "C08.12") })
+}
